@@ -54,14 +54,7 @@ def c12_twin_monitor(case_line, result):
             for d in tw['diffs']][:3]
 
 
-def c16_safe_monitor(case_line, result):
-    """C16 monitor, independent of the Lean build: a configuration the real validator accepted must be safe."""
-    if '"op":"validate"' not in case_line:
-        return []
-    c = json.loads(case_line)
-    if c['obs'].get('problems') != 0:
-        return []
-    g = c['cfg']
+def _c16_unsafe(g):
     bad = []
     if not (g['name'] and g['labelKey'] and g['labelValue'] and g['cloudGroup']):
         bad.append('empty-name')
@@ -81,6 +74,24 @@ def c16_safe_monitor(case_line, result):
         bad.append('lifecycle')
     if not g['maxNodeAgeParses']:
         bad.append('max-node-age')
+    return bad
+
+
+def c16_safe_monitor(case_line, result):
+    """C16 monitor, independent of the Lean build: a configuration the real validator accepted must be safe; a file the
+    real binary started on must contain safe entries only."""
+    if '"op":"startup"' in case_line:
+        c = json.loads(case_line)
+        if not c['obs'].get('accepted'):
+            return []
+        bad = ['%s[%d]:%s' % (g['name'], i, ','.join(_c16_unsafe(g))) for i, g in enumerate(c['cfgs']) if _c16_unsafe(g)]
+        return ['C16:start-up-accepted-unsafe:' + ';'.join(bad)] if bad else []
+    if '"op":"validate"' not in case_line:
+        return []
+    c = json.loads(case_line)
+    if c['obs'].get('problems') != 0:
+        return []
+    bad = _c16_unsafe(c['cfg'])
     return ['C16:accepted-unsafe:' + ','.join(bad)] if bad else []
 
 
@@ -208,15 +219,16 @@ PROPS = {
                            'Scope: scans (RunOnce); the one-off ASG tag write at provider construction is outside. Isolation of other groups is C12. Tie: hist (dry-focused) on writes of dry groups + monitor.',
                 level_note=LEVEL_NOTE),
     'C16': dict(level='proof', module='EscProofs.P.C16',
-                streams=dict(quick=[('decode', []), ('validate', ['-n', 4000])], thorough=[('decode', []), ('validate', ['-n', 400000])],
-                             search=[('validate', ['-n', 40000])]),
-                aspects=['problems', 'honoured', 'field', 'panic', 'bad-case'], monitors=['C16'], py_monitor=c16_safe_monitor,
+                streams=dict(quick=[('decode', []), ('validate', ['-n', 4000]), ('startup', ['-n', 150, '-bin', '@BUILD/escalator-bin'])],
+                             thorough=[('decode', []), ('validate', ['-n', 400000]), ('startup', ['-n', 4000, '-bin', '@BUILD/escalator-bin'])],
+                             search=[('validate', ['-n', 40000]), ('startup', ['-n', 600, '-bin', '@BUILD/escalator-bin'])]),
+                aspects=['problems', 'honoured', 'field', 'panic', 'bad-case', 'startup'], monitors=['C16'], py_monitor=c16_safe_monitor,
                 theorems=['Esc.P.C16_sound', 'Esc.P.C16_translation_complete', 'Esc.P.C16_keys_distinct', 'Esc.P.C16_keys_partial', 'Esc.P.C16_keys_full_fails'],
                 technique='Lean 4 theorem over definitions REGENERATED from the Go source on every run (go/ast translator of ValidateNodeGroup and of the option struct tags / documented keys) + differential correspondence of the translation with the real validator and decoder + independent monitor',
                 level_text='C16_sound: Gen.validate c -> Safe c, where Gen.validate is the conjunction of the 24 checkThat(...) conditions translated from pkg/controller/node_group.go on this run and Safe is written from the property statement; '
                            'deleting or weakening a check breaks the proof before any test runs; C16_translation_complete: no construct was left untranslated; C16_keys_*: json keys pairwise distinct, every documented example key except '
                            'scale_up_cool_down_timeout is an option key (partial: finding T4, C16_keys_full_fails). Tie: the validate stream compares, on a bounded-exhaustive grid plus random, the number of failing checks of the translation with the real '
-                           'ValidateNodeGroup; decode runs every key as YAML and JSON through the real decoder; an independent monitor re-checks Safe on every accepted configuration.',
+                           'ValidateNodeGroup; decode runs every key as YAML and JSON through the real decoder; startup runs the built program (cmd/main.go, no build tag) on generated files of 1-4 node groups (duplicate names, invalid entries in any position) and compares "got past setupNodeGroups" with "every entry passes the translated validator"; an independent monitor re-checks Safe on every accepted configuration.',
                 level_note=LEVEL_NOTE + ' YAML parsing itself (yaml.NewYAMLOrJSONDecoder) and time.ParseDuration are trusted library code; durations reach the model as the values the accessors returned.'),
     'C17': dict(level='proof', module='EscProofs.P.C17',
                 streams=dict(quick=[('awsops', ['-n', 3000]), ('fleetops', ['-n', 96])],
